@@ -23,12 +23,15 @@ ASSUMPTIONS = [
 NSHARDS = {"quick": 16, "thorough": 16}
 N_MIX = {"quick": 200, "thorough": 5000}
 N_SIM = {"quick": 16, "thorough": 400}
-REQUIRE = {"kill_individual": 500, "kill_pool_level": 100, "ticks_with_more_than_8_pool_level_kills": 10, "suspend_accepted": 200, "assignment_after_suspension": 50,
+REQUIRE = {"kill_individual": 500, "kill_pool_level": 100, "ticks_with_more_than_8_pool_level_kills": 10, "quiet_pool_memory_updates_without_exit": 500000, "suspend_accepted": 200, "assignment_after_suspension": 50,
            "sim_kill_ticks_judged": 50, "sim_runs": 50, "ticks_with_empty_pool": 100}
 
 
 def cases(tier, seed, shard, nshards):
     rng = rng_for(ID, seed, shard)
+    for _q in range(2 if tier == "quick" else 12):
+        # quiet pool, long scans: tens of thousands of incremental memory updates without any exit
+        yield _exec.quiet_scan_case(rng)
     for _m in range(2 if tier == "quick" else 40):
         # many containers start in one tick and overload one overcommitted pool: 9 .. 60 pool-level kills in one tick
         yield _exec.mass_start_case(rng)
@@ -64,6 +67,8 @@ def run_case(case, mon):
         _sim.run_sim_case(case, mon, ID)
         return
     w, mine = _exec.run_exec_case(case, mon, ID, driver=_exec.mix_driver(case), max_steps=case.get("driver", {}).get("steps", 60))
+    if case.get("_quiet_scan") and not mine and w.ended is None:
+        mon.count("quiet_pool_memory_updates_without_exit", case["_quiet_scan"])
     # suspension followed by a new start in the same pool
     sus_pool = set()
     n = 0
